@@ -38,11 +38,16 @@ impl C03 {
 
     /// `truth`: plaintext known to the producer of the stream (compressors, generator)
     pub fn judge(d: &[u8], truth: Option<&[u8]>, label: &str, ctx: &mut Ctx, corrupt: bool) -> bool {
-        ctx.item_bytes(label, d);
+        Self::judge_cap(d, truth, label, ctx, corrupt, 64 << 20)
+    }
+
+    /// `cap`: how much output zlib's inflate may produce before the comparison is abandoned
+    pub fn judge_cap(d: &[u8], truth: Option<&[u8]>, label: &str, ctx: &mut Ctx, corrupt: bool, cap: usize) -> bool {
+        ctx.item_bytes(label, &d[..d.len().min(1 << 20)]);
         ctx.count("evaluations");
         ctx.phase("nonverdict: analysis (totality of the analysis is C05's verdict)");
         let lib = cur::analyze(d, false);
-        let z = comp::zlib_inflate_raw(d, 64 << 20);
+        let z = comp::zlib_inflate_raw(d, cap);
         ctx.count(&format!(
             "accept:lib={},zlib={}",
             lib.is_ok() as u8,
@@ -265,6 +270,15 @@ impl Monitor for C03 {
                     let (d, p) = split_shift_stream(&mut r);
                     ctx.count("source:split_shift");
                     Self::judge(&d, Some(&p), "blocks sharing one code-length sequence with the HLIT/HDIST split moved by one", ctx, false);
+                }
+                return;
+            }
+            if k == 7 || k == 17 || k == 27 {
+                // scale: plaintext of several MiB up to beyond 128 MiB
+                if let Some(st) = streams::scale_stream(&mut r, (k - 7) / 10) {
+                    ctx.count("source:scale");
+                    ctx.count(&format!("scale:plaintext_{}MiB", st.plain.len() >> 20));
+                    Self::judge_cap(&st.bytes, Some(&st.plain), &st.recipe, ctx, false, 256 << 20);
                 }
                 return;
             }
